@@ -88,6 +88,9 @@ class Typer:
             if a[0] == 'arr' and b[0] == 'arr' and len(a[1]) == len(b[1]):
                 for x, y in zip(a[1], b[1]):
                     s.ob('returns-agree', same(x, y), f"one branch yields {show(x)}, the other {show(y)}", repr(k)[:80], (x, y))
+            if (a[0] == 'arr' and b[0] == 'unk') or (b[0] == 'arr' and a[0] == 'unk'):
+                # an array on one path, something that was not followed on the other (e.g. an array written through an unrecognised statement)
+                s.ob('returns-agree', None, f"one branch yields an array laid out {' × '.join(show(x) for x in (a if a[0] == 'arr' else b)[1])}, the other branch was not typed ({(b if a[0] == 'arr' else a)[1] if len(b if a[0] == 'arr' else a) > 1 else '?'})", repr(k)[:80])
             return a if a[0] != 'unk' and a != NUM else (b if b[0] != 'unk' else a)
         if h in ('list', 'tuple'):
             items = [s.ty(x) for x in k[1]]
@@ -752,6 +755,11 @@ class Typer:
                 return a
             return a if a[0] == 'arr' else b
         if tag == 'kw': return s.ty(k[3])
+        if tag == 'np.solve' and len(k) == 4:
+            a, b = s.ty(k[2]), s.ty(k[3])
+            if a[0] == 'arr' and b[0] == 'arr' and len(a[1]) == 2:
+                s.ob('solve:rhs', same(a[1][0], b[1][0]), f"equations laid out {show(a[1][0])}, right-hand side {show(b[1][0])}", text)
+                return ('arr', (a[1][1],) + tuple(b[1][1:]))
         inner = [s.ty(a) for a in k[2:] if isinstance(a, tuple)]
         if tag in ('np.ravel', 'np.squeeze') and inner and inner[0][0] == 'arr':
             keep = [a for a in inner[0][1] if a != ONE]
@@ -808,6 +816,9 @@ class Typer:
             if r[6] is True and any(listlike(ik, it) for ik, it in zip(idx, items)):
                 s.ob('scatter-accumulate', False, "augmented assignment through an index LIST: numpy buffers the operation, contributions that address the same position "
                      "more than once are not summed (use np.add.at or a matrix product)", text)
+            elif r[6] is True and any(it[0] not in ('idx', 'idxplus', 'num', 'slice', 'size', 'tuple', 'mask') for it in items):
+                s.ob('scatter-accumulate', None, "augmented assignment through an index that was not typed as ONE position: if it is an index array, contributions "
+                     "that address the same position more than once are not summed", text)
             res = s.index_array(base, items, text, 'store-index')
             val = s.ty(r[5]) if isinstance(r[5], tuple) else NUM
             if res[0] == 'arr' and val[0] == 'arr' and len(res[1]) == len(val[1]):
